@@ -242,11 +242,14 @@ Section PrunedUnfuse.
   Notation rng := (slot_range G (indices G R x) (sectors G R x)).
   Notation extg := (extF G (SI G (indices G R x) (sectors G R x) g)).
 
+  (* IXr: the index list the block shapes refer to (the indices of Y or their unpruned originals) *)
+  Context (IXr : list (index G)).
   Context (HY_ix : nth ax (indices G R Y) dflt = drop_charges G fi dropped).
+  Context (HIX_sz : forall ch, ~ In ch dropped -> size_of G (nth ax IXr dflt) ch = size_of G fi ch).
   Context (HY_nd : NoDup (sectors G R Y)).
   Context (HY_shape : forall K T, In (K, T) (blocks G R Y) ->
-             length K = length (indices G R Y) /\ tshape T = block_shape G (indices G R Y) K).
-  Context (HY_ax : ax < length (indices G R Y)).
+             length K = length IXr /\ tshape T = block_shape G IXr K).
+  Context (HY_ax : ax < length IXr).
   Context (HY_kept : forall K T, In (K, T) (blocks G R Y) -> ~ In (nth ax K idc) dropped).
 
   Definition keep (k : C G) : bool := negb (mem (ceqb G) k dropped).
@@ -292,11 +295,11 @@ Section PrunedUnfuse.
     destruct EF as (_ & _ & H & _). exact (H c c' e e' ss (proj1 He) (proj1 He') Hss Hss').
   Qed.
   Lemma P_sz : forall ch e ss st len, lookup (ceqb G) ch pext = Some e -> In (ss, (st, len)) (ranges_from 0 e) ->
-             shape_size (block_shape G subs ss) = len /\ st + len <= size_of G (nth ax (indices G R Y) dflt) ch.
+             shape_size (block_shape G subs ss) = len /\ st + len <= size_of G (nth ax IXr dflt) ch.
   Proof.
     intros ch e ss st len He Hq. apply pext_some in He. destruct He as [He Hnd].
     destruct EF as (_ & _ & _ & H). destruct (H ch e ss st len He Hq) as (s' & _ & _ & Hlen & _ & Hle & Hbs & _).
-    split; [rewrite Hbs, Hlen; reflexivity|]. rewrite HY_ix, (size_of_drop G GL) by exact Hnd. exact Hle.
+    split; [rewrite Hbs, Hlen; reflexivity|]. rewrite (HIX_sz ch Hnd). exact Hle.
   Qed.
 
   Theorem pruned_unfuse :
@@ -304,14 +307,14 @@ Section PrunedUnfuse.
     indices G R PY' = replace_with_seq (indices G R Y) ax subs /\
     NoDup (sectors G R PY') /\
     (forall K' T', In (K', T') (blocks G R PY') ->
-       length K' = length (indices G R PY') /\ tshape T' = block_shape G (indices G R PY') K') /\
+       length K' = length (replace_with_seq IXr ax subs) /\ tshape T' = block_shape G (replace_with_seq IXr ax subs) K') /\
     (forall K' T', In (K', T') (blocks G R PY') ->
        exists K T, In (K, T) (blocks G R Y) /\ firstn ax K' = firstn ax K).
   Proof.
     split; [exact (gunfuse G R GL Y ax subs pext P_sub HY_nd P_len P_nd P_elen P_fun)|].
     split; [reflexivity|].
     split; [exact (GUB_NoDup G R Y ax subs pext HY_nd P_len P_nd P_elen P_fun)|].
-    split; [exact (GUB_shape G R Y ax subs pext P_len P_nd P_elen HY_shape P_sz)|].
+    split; [exact (GUB_shape G R Y ax subs pext P_len P_nd P_elen IXr HY_shape P_sz)|].
     intros K' T' Hin. cbn [PY' GY' blocks] in Hin. apply (GUB_In G R Y ax) in Hin.
     destruct Hin as (K & T & e & q & HinY & _ & _ & Heq). exists K, T. split; [exact HinY|].
     pose proof (f_equal fst Heq) as HK. unfold gpiece in HK. cbn [fst] in HK. rewrite HK.
@@ -324,7 +327,7 @@ Section PrunedUnfuse.
   Theorem pruned_unfuse_sem s' cL csub cR :
     In s' secs -> length cL = ax -> map fst csub = sub s' g ->
     (In (map fst cL ++ gc s' g :: map fst cR) (sectors G R Y) ->
-     coords_ok G (indices G R PY') (cL ++ csub ++ cR) = true) ->
+     coords_ok G (replace_with_seq IXr ax subs) (cL ++ csub ++ cR) = true) ->
     sem G R PY' (cL ++ csub ++ cR) =
     sem G R Y (cL ++ (gc s' g, fst (rng s' g) + offset (map (szf s') g) (map snd csub)) :: cR).
   Proof.
@@ -340,7 +343,7 @@ Section PrunedUnfuse.
     destruct (mem (ceqb G) (gc s' g) dropped) eqn:Ed.
     - (* the fused charge was pruned away: no block on either side *)
       apply (mem_In (ceqb G) Hce') in Ed.
-      rewrite (gunfuse_sem_none G R GL Y ax subs pext P_len P_nd P_elen HY_shape P_sz cL csub cR HlcL).
+      rewrite (gunfuse_sem_none G R GL Y ax subs pext P_len P_nd P_elen IXr HY_shape P_sz cL csub cR HlcL).
       + unfold sem. rewrite map_app. cbn [map fst].
         destruct (lookup keq (map fst cL ++ gc s' g :: map fst cR) (blocks G R Y)) as [T|] eqn:E; [exfalso|reflexivity].
         apply (OrderProofs.lookup_In keq (Hke G GL)) in E. apply (HY_kept _ _ E).
@@ -353,7 +356,7 @@ Section PrunedUnfuse.
         pose proof (Hfun _ _ _ _ _ He2 He Hin2 Hk) as Hceq. apply (HY_kept K T HinY). now rewrite Hceq.
     - assert (Hpe : lookup (ceqb G) (gc s' g) pext = Some e).
       { rewrite lookup_pext. unfold keep. now rewrite Ed. }
-      rewrite (gunfuse_sem G R GL Y ax subs pext HY_nd P_len P_nd P_elen P_fun HY_shape P_sz
+      rewrite (gunfuse_sem G R GL Y ax subs pext HY_nd P_len P_nd P_elen P_fun IXr HY_shape P_sz
                  cL csub cR (gc s' g) e st (gsz s' g) HlcL Hpe Hq Hc).
       now rewrite Hbs.
   Qed.
@@ -365,7 +368,7 @@ Section PrunedUnfuse.
     sem G R PY' (cL ++ csub ++ cR) = r0 R.
   Proof.
     intros HlcL Hl Hno. unfold PY'.
-    apply (gunfuse_sem_none G R GL Y ax subs pext P_len P_nd P_elen HY_shape P_sz cL csub cR HlcL).
+    apply (gunfuse_sem_none G R GL Y ax subs pext P_len P_nd P_elen IXr HY_shape P_sz cL csub cR HlcL).
     - unfold subs_of. now rewrite map_length.
     - intros K T e HinY He Hin. apply pext_some in He. destruct He as [He _].
       destruct EF as (_ & Hent & _). destruct (Hent _ _ _ He Hin) as (_ & s' & Hs' & Hss & _).
@@ -545,11 +548,7 @@ Section PairSide.
 End PairSide.
 
 (* ------------------------------------------------------------------ *)
-(* Part F: fused = blockwise at the level of coordinates, for a pair of operands
-   that see the same contracted sub-sectors with the same fused layout, when the
-   free legs of both sides and the contracted legs are each >= 2 axes (every
-   group is really fused; this is the case where the fused route stores extra
-   all-zero blocks) *)
+(* small list facts used by the value theorem (Proofs/FusedSemGen.v) *)
 Lemma coords_ok_app (G : Symmetry) (i1 i2 : list (index G)) (c1 c2 : list (coord G)) :
   coords_ok G i1 c1 = true -> coords_ok G i2 c2 = true -> coords_ok G (i1 ++ i2) (c1 ++ c2) = true.
 Proof.
@@ -562,487 +561,6 @@ Qed.
 Lemma firstn1_nth0 {A} (l l' : list A) d : firstn 1 l = firstn 1 l' -> l <> [] -> nth 0 l d = nth 0 l' d.
 Proof. destruct l as [|a l], l' as [|b l']; cbn [firstn nth]; intros H Hne; try congruence. Qed.
 
-Section FusedEqNS.
-  Context (G : Symmetry) (R : Ring) (GL : GroupLaws G) (OL : OrderLaws G) (RL : SumLaws R).
-  Context (a b : aarray G R) (aa ab : list nat).
-  Notation idc := (ident G).
-  Notation dflt := (dflt_index G).
-  Notation keq := (list_eqb (ceqb G)).
-  Notation la := (rest_axes (ndim G R a) aa).
-  Notation rb := (rest_axes (ndim G R b) ab).
-  Notation FIa := (fused_index G (indices G R a) (sectors G R a)).
-  Notation FIb := (fused_index G (indices G R b) (sectors G R b)).
-  Notation af := (fuse_core G R a [la; aa]).
-  Notation bf := (fuse_core G R b [ab; rb]).
-  Notation cc := (tdot_blockwise G R af bf [0] [1] [0] [1]).
-
-  Context (Hwa : wf_array G R a = true) (Hwb : wf_array G R b = true).
-  Context (Haa : axes_ok (ndim G R a) aa = true) (Hab : axes_ok (ndim G R b) ab = true).
-  Context (Hlen : length aa = length ab).
-  Context (H2aa : 2 <= length aa) (H2la : 2 <= length la) (H2rb : 2 <= length rb).
-  (* what the alignment provides *)
-  Context (Hsame : forall ss, In ss (map (fun s => take_axes idc s aa) (sectors G R a)) <->
-                              In ss (map (fun s => take_axes idc s ab) (sectors G R b))).
-  Context (Hdual0 : idual G (FIa aa) = negb (idual G (FIb ab))).
-  Context (Hagree : forall sa sb, In sa (sectors G R a) -> In sb (sectors G R b) ->
-              take_axes idc sa aa = take_axes idc sb ab ->
-              map (sz G R a sa) aa = map (sz G R b sb) ab /\
-              group_charge G (indices G R a) sa aa = group_charge G (indices G R b) sb ab /\
-              slot_range G (indices G R a) (sectors G R a) sa aa = slot_range G (indices G R b) (sectors G R b) sb ab).
-
-  Lemma Haa_s : NoDup aa /\ (forall i, In i aa -> i < ndim G R a).
-  Proof. now apply axes_ok_spec. Qed.
-  Lemma Hab_s : NoDup ab /\ (forall i, In i ab -> i < ndim G R b).
-  Proof. now apply axes_ok_spec. Qed.
-  Lemma H2ab : 2 <= length ab.
-  Proof. rewrite <- Hlen. exact H2aa. Qed.
-
-  Lemma pairA : NoDup (la ++ aa) /\ (forall ax, In ax (la ++ aa) <-> ax < ndim G R a).
-  Proof.
-    destruct Haa_s as [H1 H2]. destruct (rest_axes_pair (ndim G R a) aa H1) as (P1 & _ & P3 & _).
-    { apply Forall_forall. exact H2. }
-    now split.
-  Qed.
-  Lemma pairB : NoDup (ab ++ rb) /\ (forall ax, In ax (ab ++ rb) <-> ax < ndim G R b).
-  Proof.
-    destruct Hab_s as [H1 H2]. destruct (rest_axes_pair (ndim G R b) ab H1) as (_ & P2 & _ & P4).
-    { apply Forall_forall. exact H2. }
-    now split.
-  Qed.
-
-  Notation PAnd := (proj1 pairA). Notation PAcov := (proj2 pairA).
-  Notation PBnd := (proj1 pairB). Notation PBcov := (proj2 pairB).
-
-  Definition PSA := PS_all G R GL OL a la aa Hwa PAnd PAcov H2la H2aa.
-  Definition PSB := PS_all G R GL OL b ab rb Hwb PBnd PBcov H2ab H2rb.
-
-  Lemma af_indices : indices G R af = [FIa la; FIa aa].
-  Proof. apply PSA. Qed.
-  Lemma bf_indices : indices G R bf = [FIb ab; FIb rb].
-  Proof. apply PSB. Qed.
-  Lemma af_wf : wf_array G R af = true.
-  Proof. apply PSA. Qed.
-  Lemma bf_wf : wf_array G R bf = true.
-  Proof. apply PSB. Qed.
-  Lemma af_ndim : ndim G R af = 2.
-  Proof. exact (f_equal (@length _) af_indices). Qed.
-  Lemma bf_ndim : ndim G R bf = 2.
-  Proof. exact (f_equal (@length _) bf_indices). Qed.
-
-  Lemma cc_indices : indices G R cc = prune_indices G [FIa la; FIb rb] (sectors G R cc).
-  Proof. unfold tdot_blockwise. cbn [indices sectors blocks]. rewrite af_indices, bf_indices. reflexivity. Qed.
-
-  Lemma cc_wf : wf_array G R cc = true.
-  Proof.
-    pose proof (tdot_blockwise_wf G GL R OL af bf [1] [0] af_wf bf_wf) as H.
-    rewrite af_ndim, bf_ndim in H. apply H.
-    - repeat constructor. intros [].
-    - intros i [<-|[]]. lia.
-    - repeat constructor. intros [].
-    - intros i [<-|[]]. lia.
-    - reflexivity.
-    - intros k Hk. cbn [length] in Hk. assert (k = 0) by lia. subst k. cbn [nth].
-      rewrite af_indices, bf_indices. cbn [nth]. exact Hdual0.
-  Qed.
-
-  Lemma cc_WF : WF G R (indices G R cc) (charge G R cc) (blocks G R cc).
-  Proof. apply (wf_array_iff G GL R cc). exact cc_wf. Qed.
-
-  Lemma cc_len : length (indices G R cc) = 2.
-  Proof. rewrite cc_indices. now rewrite (length_prune_indices G). Qed.
-
-  Lemma cc_shape K T : In (K, T) (blocks G R cc) ->
-    length K = length (indices G R cc) /\ tshape T = block_shape G (indices G R cc) K.
-  Proof.
-    intros Hin. destruct (wf_bl G R _ _ _ cc_WF K T Hin) as ((Hl & _) & Hsh & _). now split.
-  Qed.
-
-  Definition droppedAt (i : nat) (ix : index G) : list (C G) :=
-    filter (fun ch => negb (mem (ceqb G) ch (map (fun s => nth i s idc) (sectors G R cc)))) (icharges G ix).
-
-  Lemma cc_nth0 : nth 0 (indices G R cc) dflt = drop_charges G (FIa la) (droppedAt 0 (FIa la)).
-  Proof. rewrite cc_indices. rewrite (nth_prune_indices G) by (cbn; lia). reflexivity. Qed.
-  Lemma cc_nth1 : nth 1 (indices G R cc) dflt = drop_charges G (FIb rb) (droppedAt 1 (FIb rb)).
-  Proof. rewrite cc_indices. rewrite (nth_prune_indices G) by (cbn; lia). reflexivity. Qed.
-
-  Lemma cc_kept i ix K T : In (K, T) (blocks G R cc) -> ~ In (nth i K idc) (droppedAt i ix).
-  Proof.
-    intros Hin Hd. unfold droppedAt in Hd. apply filter_In in Hd. destruct Hd as [_ Hd].
-    assert (Hm : mem (ceqb G) (nth i K idc) (map (fun s => nth i s idc) (sectors G R cc)) = true).
-    { apply (mem_In (ceqb G) (Hce G GL)). apply in_map_iff. exists K. split; [reflexivity|].
-      unfold sectors. apply in_map_iff. exists (K, T). now split. }
-    rewrite Hm in Hd. discriminate.
-  Qed.
-
-  (* the two unfuse steps *)
-  Definition c1 : aarray G R := PY' G R b rb cc 1 (droppedAt 1 (FIb rb)).
-  Definition c2 : aarray G R := PY' G R a la c1 0 (droppedAt 0 (FIa la)).
-
-  Lemma neA : Forall (fun g : list nat => g <> []) [la; aa]. Proof. apply PSA. Qed.
-  Lemma ndA : NoDup (concat [la; aa]). Proof. apply PSA. Qed.
-  Lemma rgA : Forall (fun ax => ax < length (indices G R a)) (concat [la; aa]). Proof. apply PSA. Qed.
-  Lemma neB : Forall (fun g : list nat => g <> []) [ab; rb]. Proof. apply PSB. Qed.
-  Lemma ndB : NoDup (concat [ab; rb]). Proof. apply PSB. Qed.
-  Lemma rgB : Forall (fun ax => ax < length (indices G R b)) (concat [ab; rb]). Proof. apply PSB. Qed.
-  Lemma inA_la : In la (slots (length (indices G R a)) [la; aa]). Proof. apply PSA. Qed.
-  Lemma inA_aa : In aa (slots (length (indices G R a)) [la; aa]). Proof. apply PSA. Qed.
-  Lemma inB_ab : In ab (slots (length (indices G R b)) [ab; rb]). Proof. apply PSB. Qed.
-  Lemma inB_rb : In rb (slots (length (indices G R b)) [ab; rb]). Proof. apply PSB. Qed.
-  Lemma sgLa : is_singlet la = false. Proof. apply PSA. Qed.
-  Lemma sgAa : is_singlet aa = false. Proof. apply PSA. Qed.
-  Lemma sgAb : is_singlet ab = false. Proof. apply PSB. Qed.
-  Lemma sgRb : is_singlet rb = false. Proof. apply PSB. Qed.
-
-  Lemma step1 :
-    a_unfuse G R cc 1 = Some c1 /\
-    indices G R c1 = replace_with_seq (indices G R cc) 1 (subs_of G (indices G R b) rb) /\
-    NoDup (sectors G R c1) /\
-    (forall K' T', In (K', T') (blocks G R c1) ->
-       length K' = length (indices G R c1) /\ tshape T' = block_shape G (indices G R c1) K') /\
-    (forall K' T', In (K', T') (blocks G R c1) -> exists K T, In (K, T) (blocks G R cc) /\ firstn 1 K' = firstn 1 K).
-  Proof.
-    apply (pruned_unfuse G R GL OL b [ab; rb] Hwb neB ndB rgB rb inB_rb sgRb cc 1 (droppedAt 1 (FIb rb)) cc_nth1).
-    - exact (wf_nd G R _ _ _ cc_WF).
-    - exact cc_shape.
-    - rewrite cc_len. lia.
-    - intros K T Hin. now apply (cc_kept 1 (FIb rb) K T).
-  Qed.
-
-  Lemma c1_indices : indices G R c1 = nth 0 (indices G R cc) dflt :: subs_of G (indices G R b) rb.
-  Proof.
-    destruct step1 as (_ & Hi & _). rewrite Hi. pose proof cc_len as Hl.
-    destruct (indices G R cc) as [|i0 [|i1 [|i2 l]]]; cbn [length] in Hl; try lia.
-    unfold replace_with_seq. cbn [firstn skipn nth app]. now rewrite app_nil_r.
-  Qed.
-
-  Lemma c1_kept K' T' : In (K', T') (blocks G R c1) -> ~ In (nth 0 K' idc) (droppedAt 0 (FIa la)).
-  Proof.
-    intros Hin. destruct step1 as (_ & _ & _ & Hsh & Hfrom).
-    destruct (Hfrom K' T' Hin) as (K & T & HinK & Hf).
-    destruct (Hsh K' T' Hin) as [Hl _]. rewrite c1_indices in Hl. cbn [length] in Hl.
-    rewrite (firstn1_nth0 K' K idc Hf) by (intros E; rewrite E in Hl; cbn in Hl; lia).
-    now apply (cc_kept 0 (FIa la) K T).
-  Qed.
-
-  Lemma step2 :
-    a_unfuse G R c1 0 = Some c2 /\
-    indices G R c2 = subs_of G (indices G R a) la ++ subs_of G (indices G R b) rb.
-  Proof.
-    destruct step1 as (_ & _ & Hnd1 & Hsh1 & _).
-    destruct (pruned_unfuse G R GL OL a [la; aa] Hwa neA ndA rgA la inA_la sgLa c1 0 (droppedAt 0 (FIa la))) as (P1 & P2 & _).
-    - rewrite c1_indices. cbn [nth]. exact cc_nth0.
-    - exact Hnd1.
-    - exact Hsh1.
-    - rewrite c1_indices. cbn [length]. lia.
-    - exact c1_kept.
-    - split; [exact P1|]. fold c2 in P2. rewrite P2, c1_indices. reflexivity.
-  Qed.
-  (* ---------------- the two routes, coordinate by coordinate ---------------- *)
-  Notation legsA := (take_axes dflt (indices G R a) aa).
-  Notation ww := (tdot_blockwise G R a b la aa ab rb).
-  Notation dc := (ident G, 0).
-  Notation Sum := (rsum R).
-
-  Lemma is_nil_len2 {A} (l : list A) : 2 <= length l -> is_nil l = false /\ Nat.ltb 1 (length l) = true.
-  Proof. intros H. split; [destruct l; [cbn in H; lia|reflexivity]|apply Nat.ltb_lt; lia]. Qed.
-
-  Lemma fused_on_eq : fused_on G R a b la aa ab rb = c2.
-  Proof.
-    unfold fused_on. cbv zeta.
-    replace (a_fuse_noexpand G R a [la; aa]) with af by (symmetry; apply PSA).
-    replace (a_fuse_noexpand G R b [ab; rb]) with bf by (symmetry; apply PSB).
-    rewrite (proj1 (is_nil_len2 la H2la)), (proj1 (is_nil_len2 aa H2aa)),
-            (proj1 (is_nil_len2 ab H2ab)), (proj1 (is_nil_len2 rb H2rb)).
-    rewrite (proj2 (is_nil_len2 la H2la)), (proj2 (is_nil_len2 rb H2rb)).
-    cbv beta iota.
-    assert (Hn : ndim G R cc - 1 = 1) by (change (length (indices G R cc) - 1 = 1); rewrite cc_len; reflexivity).
-    rewrite Hn.
-    unfold unfuse_or_keep. rewrite (proj1 step1), (proj1 step2). reflexivity.
-  Qed.
-
-  Lemma c2_indices : indices G R c2 = take_axes dflt (indices G R a) la ++ take_axes dflt (indices G R b) rb.
-  Proof. exact (proj2 step2). Qed.
-
-  Context (csl csr : list (coord G)).
-  Context (Hcl : coords_ok G (without_axes (indices G R a) aa) csl = true).
-  Context (Hcr : coords_ok G (without_axes (indices G R b) ab) csr = true).
-
-  Lemma Hcl' : coords_ok G (take_axes dflt (indices G R a) la) csl = true.
-  Proof. rewrite <- (without_axes_take dflt). exact Hcl. Qed.
-  Lemma Hcr' : coords_ok G (take_axes dflt (indices G R b) rb) csr = true.
-  Proof. rewrite <- (without_axes_take dflt). exact Hcr. Qed.
-  Lemma len_csl : length csl = length la.
-  Proof. rewrite (coords_ok_length G _ _ Hcl'). apply length_take_axes. Qed.
-  Lemma len_csr : length csr = length rb.
-  Proof. rewrite (coords_ok_length G _ _ Hcr'). apply length_take_axes. Qed.
-
-  Lemma mergeA_la kc : take_axes dc (merge G (ndim G R a) aa csl kc) la = csl.
-  Proof. apply take_scatterA_rest. exact len_csl. Qed.
-  Lemma mergeB_rb kc : take_axes dc (merge G (ndim G R b) ab csr kc) rb = csr.
-  Proof. apply take_scatterA_rest. exact len_csr. Qed.
-
-  Lemma semA_zero : (forall s', In s' (sectors G R a) -> group_subsector G s' la <> map fst csl) ->
-    forall kc, sem G R a (merge G (ndim G R a) aa csl kc) = r0 R.
-  Proof.
-    intros Hno kc. unfold sem.
-    destruct (lookup keq (map fst (merge G (ndim G R a) aa csl kc)) (blocks G R a)) as [t|] eqn:E; [exfalso|reflexivity].
-    apply (OrderProofs.lookup_In keq (Hke G GL)) in E.
-    apply (Hno _ (In_secs G R a _ t E)). unfold group_subsector.
-    rewrite <- (take_map fst dc). now rewrite mergeA_la.
-  Qed.
-  Lemma semB_zero : (forall s', In s' (sectors G R b) -> group_subsector G s' rb <> map fst csr) ->
-    forall kc, sem G R b (merge G (ndim G R b) ab csr kc) = r0 R.
-  Proof.
-    intros Hno kc. unfold sem.
-    destruct (lookup keq (map fst (merge G (ndim G R b) ab csr kc)) (blocks G R b)) as [t|] eqn:E; [exfalso|reflexivity].
-    apply (OrderProofs.lookup_In keq (Hke G GL)) in E.
-    apply (Hno _ (In_secs G R b _ t E)). unfold group_subsector.
-    rewrite <- (take_map fst dc). now rewrite mergeB_rb.
-  Qed.
-
-  Lemma W_formula : sem G R ww (csl ++ csr) =
-    Sum (map (fun kc => rmul R (sem G R a (merge G (ndim G R a) aa csl kc)) (sem G R b (merge G (ndim G R b) ab csr kc)))
-             (all_coords G legsA)).
-  Proof.
-    apply (blockwise_sem_wf G R RL (ceqb_spec G GL) a b la aa ab rb csl csr); try assumption; try reflexivity; apply OL.
-  Qed.
-
-  (* deciding whether a sub-sector is recorded *)
-  Lemma rec_dec (x : aarray G R) (g : list nat) (ss : list (C G)) :
-    (exists s', In s' (sectors G R x) /\ group_subsector G s' g = ss) \/
-    (forall s', In s' (sectors G R x) -> group_subsector G s' g <> ss).
-  Proof.
-    destruct (existsb (fun s' => keq (group_subsector G s' g) ss) (sectors G R x)) eqn:E.
-    - left. apply existsb_exists in E. destruct E as (s' & Hs' & Hk). exists s'. split; [exact Hs'|]. now apply (Hke G GL).
-    - right. intros s' Hs' Heq.
-      assert (Hf : existsb (fun s' => keq (group_subsector G s' g) ss) (sectors G R x) = true).
-      { apply existsb_exists. exists s'. split; [exact Hs'|]. now apply (Hke G GL). }
-      rewrite Hf in E. discriminate.
-  Qed.
-  Lemma c2_coords : coords_ok G (indices G R c2) (csl ++ csr) = true.
-  Proof. rewrite c2_indices. apply coords_ok_app; [exact Hcl'|exact Hcr']. Qed.
-
-  Lemma c1_ix0 : nth 0 (indices G R c1) dflt = drop_charges G (FIa la) (droppedAt 0 (FIa la)).
-  Proof. rewrite c1_indices. cbn [nth]. exact cc_nth0. Qed.
-  Lemma c1_ax : 0 < length (indices G R c1).
-  Proof. rewrite c1_indices. cbn [length]. lia. Qed.
-  Lemma cc_ax : 1 < length (indices G R cc).
-  Proof. rewrite cc_len. lia. Qed.
-
-  (* block shapes of the contracted legs *)
-  Lemma bsA s' : block_shape G legsA (group_subsector G s' aa) = map (sz G R a s') aa.
-  Proof. exact (subshape_sub G R a aa s'). Qed.
-  Lemma bsB s' : block_shape G (take_axes dflt (indices G R b) ab) (group_subsector G s' ab) = map (sz G R b s') ab.
-  Proof. exact (subshape_sub G R b ab s'). Qed.
-
-  Theorem fused_sem_eq_NS : sem G R (fused_on G R a b la aa ab rb) (csl ++ csr) = sem G R ww (csl ++ csr).
-  Proof.
-    destruct Haa_s as [Haa_nd Haa_lt]. destruct Hab_s as [Hab_nd Hab_lt].
-    rewrite fused_on_eq, W_formula.
-    destruct (rec_dec a la (map fst csl)) as [(sL & HsL & EL)|HnoL].
-    2:{ rewrite (rsum_zero R RL) by (intros kc _; rewrite (semA_zero HnoL kc); apply (rmul_0_l R RL)).
-        unfold c2. change (csl ++ csr) with ([] ++ csl ++ csr).
-        apply (pruned_unfuse_sem_none G R GL OL a [la; aa] Hwa neA ndA rgA la inA_la sgLa c1 0 (droppedAt 0 (FIa la))
-                 c1_ix0 (proj1 (proj2 (proj2 (proj2 step1)))) c1_ax c1_kept [] csl csr eq_refl len_csl HnoL). }
-    destruct (rec_dec b rb (map fst csr)) as [(sR & HsR & ER)|HnoR].
-    2:{ rewrite (rsum_zero R RL) by (intros kc _; rewrite (semB_zero HnoR kc); apply (rmul_0_r R RL)).
-        unfold c2. change (csl ++ csr) with ([] ++ csl ++ csr).
-        etransitivity;
-          [apply (pruned_unfuse_sem G R GL OL a [la; aa] Hwa neA ndA rgA la inA_la sgLa c1 0 (droppedAt 0 (FIa la))
-                   c1_ix0 (proj1 (proj2 (proj2 step1))) (proj1 (proj2 (proj2 (proj2 step1)))) c1_ax c1_kept
-                   sL [] csl csr HsL eq_refl (eq_sym EL) (fun _ => c2_coords))|].
-        cbn [app]. rewrite <- (app_nil_r csr) at 1.
-        match goal with |- sem G R c1 (?fl :: csr ++ []) = _ =>
-          change (fl :: csr ++ []) with ([fl] ++ csr ++ []); unfold c1;
-          apply (pruned_unfuse_sem_none G R GL OL b [ab; rb] Hwb neB ndB rgB rb inB_rb sgRb cc 1 (droppedAt 1 (FIb rb))
-                   cc_nth1 cc_shape cc_ax (fun K T => cc_kept 1 (FIb rb) K T) [fl] csr [] eq_refl len_csr HnoR)
-        end. }
-    (* both free sub-sectors are recorded: the fused coordinates *)
-    set (fl := fco G R a la sL (map snd csl)). set (fr := fco G R b rb sR (map snd csr)).
-    assert (Hfl_ok : snd fl < size_of G (FIa la) (fst fl)).
-    { apply (fco_ok G R GL OL a la aa Hwa PAnd PAcov H2la H2aa la sL _ inA_la HsL).
-      pose proof (coords_inb_gen G _ _ Hcl') as Hi. rewrite <- EL in Hi.
-      change (block_shape G (take_axes dflt (indices G R a) la) (group_subsector G sL la))
-        with (subshape G R a la (group_subsector G sL la)) in Hi.
-      now rewrite (subshape_sub G R a la sL) in Hi. }
-    assert (Hfr_ok : snd fr < size_of G (FIb rb) (fst fr)).
-    { apply (fco_ok G R GL OL b ab rb Hwb PBnd PBcov H2ab H2rb rb sR _ inB_rb HsR).
-      pose proof (coords_inb_gen G _ _ Hcr') as Hi. rewrite <- ER in Hi.
-      change (block_shape G (take_axes dflt (indices G R b) rb) (group_subsector G sR rb))
-        with (subshape G R b rb (group_subsector G sR rb)) in Hi.
-      now rewrite (subshape_sub G R b rb sR) in Hi. }
-    (* F1, F2: the two unfuse steps *)
-    assert (HF : sem G R c2 (csl ++ csr) = sem G R cc [fl; fr]).
-    { unfold c2. change (csl ++ csr) with ([] ++ csl ++ csr).
-      etransitivity;
-        [apply (pruned_unfuse_sem G R GL OL a [la; aa] Hwa neA ndA rgA la inA_la sgLa c1 0 (droppedAt 0 (FIa la))
-                 c1_ix0 (proj1 (proj2 (proj2 step1))) (proj1 (proj2 (proj2 (proj2 step1)))) c1_ax c1_kept
-                 sL [] csl csr HsL eq_refl (eq_sym EL) (fun _ => c2_coords))|].
-      cbn [app]. fold (fco G R a la sL (map snd csl)). fold fl.
-      rewrite <- (app_nil_r csr) at 1. change (fl :: csr ++ []) with ([fl] ++ csr ++ []).
-      unfold c1.
-      etransitivity;
-        [apply (pruned_unfuse_sem G R GL OL b [ab; rb] Hwb neB ndB rgB rb inB_rb sgRb cc 1 (droppedAt 1 (FIb rb))
-                 cc_nth1 (wf_nd G R _ _ _ cc_WF) cc_shape cc_ax (fun K T => cc_kept 1 (FIb rb) K T)
-                 sR [fl] csr [] HsR eq_refl (eq_sym ER))|].
-      2: reflexivity.
-      { intros HK. fold c1. rewrite c1_indices, app_nil_r.
-        change (coords_ok G ([nth 0 (indices G R cc) dflt] ++ take_axes dflt (indices G R b) rb) ([fl] ++ csr) = true).
-        apply coords_ok_app; [|exact Hcr'].
-        unfold coords_ok. cbn [length Nat.eqb List.combine forallb fst snd andb].
-        rewrite andb_true_r. apply Nat.ltb_lt. rewrite cc_nth0.
-        rewrite (size_of_drop G GL); [exact Hfl_ok|].
-        unfold sectors in HK. apply in_map_iff in HK. destruct HK as ([K T] & HKeq & HinK). cbn [fst] in HKeq.
-        pose proof (cc_kept 0 (FIa la) K T HinK) as Hk. rewrite HKeq in Hk. cbn [map app nth] in Hk. exact Hk. } }
-    rewrite HF. clear HF.
-    (* F3: the matrix product of the fused operands *)
-    assert (HP : sem G R cc ([fl] ++ [fr]) =
-                 Sum (map (fun k => rmul R (sem G R af [fl; k]) (sem G R bf [k; fr])) (index_coords G (FIa aa)))).
-    { rewrite (blockwise_sem_wf G R RL (ceqb_spec G GL) af bf [0] [1] [0] [1] [fl] [fr]).
-      - rewrite af_indices. change (take_axes dflt [FIa la; FIa aa] [1]) with [FIa aa].
-        rewrite all_coords_single, map_map. rewrite af_ndim, bf_ndim. reflexivity.
-      - apply OL.
-      - apply OL.
-      - exact af_wf.
-      - exact bf_wf.
-      - rewrite af_ndim. reflexivity.
-      - rewrite bf_ndim. reflexivity.
-      - reflexivity.
-      - rewrite af_ndim. reflexivity.
-      - rewrite bf_ndim. reflexivity.
-      - rewrite af_indices. change (without_axes [FIa la; FIa aa] [1]) with [FIa la].
-        unfold coords_ok. cbn [length Nat.eqb List.combine forallb fst snd andb]. rewrite andb_true_r. now apply Nat.ltb_lt.
-      - rewrite bf_indices. change (without_axes [FIb ab; FIb rb] [0]) with [FIb rb].
-        unfold coords_ok. cbn [length Nat.eqb List.combine forallb fst snd andb]. rewrite andb_true_r. now apply Nat.ltb_lt. }
-    change [fl; fr] with ([fl] ++ [fr]). rewrite HP. clear HP.
-    (* the blockwise side, per (sub-sector, sub-offsets) *)
-    rewrite (coords_split G R RL (ceqb_spec G GL) legsA).
-    2:{ pose proof (legs_nodup G R GL OL a [la; aa] Hwa neA ndA rgA aa inA_aa sgAa) as Hn.
-        apply Forall_forall. intros ix Hix. rewrite Forall_forall in Hn. apply Hn. now apply in_map. }
-    (* split the fused contracted coordinate *)
-    apply (fused_sum_split G R GL OL RL a [la; aa] Hwa neA ndA rgA aa inA_aa sgAa
-             (fun k => rmul R (sem G R af [fl; k]) (sem G R bf [k; fr]))
-             (fun ss u => rmul R (sem G R a (merge G (ndim G R a) aa csl (List.combine ss u)))
-                                 (sem G R b (merge G (ndim G R b) ab csr (List.combine ss u))))).
-    - intros s' u Hs' Hu. set (ss := group_subsector G s' aa). set (kc := List.combine ss u).
-      assert (Hlss : length ss = length aa) by (unfold ss, group_subsector; apply length_take_axes).
-      destruct (coords_ok_combine G legsA ss u) as (HkcA & Hkf & Hks).
-      { now rewrite length_take_axes. }
-      { unfold ss. rewrite bsA. exact Hu. }
-      change (List.combine ss u) with kc in HkcA, Hkf, Hks.
-      destruct (merge_facts G (indices G R a) aa csl kc Haa_nd Haa_lt Hcl HkcA) as (HcsA & HtA & _).
-      fold (ndim G R a) in HcsA, HtA. set (csA := merge G (ndim G R a) aa csl kc) in *.
-      (* the partner on the b side *)
-      assert (Hex : exists sb, In sb (sectors G R b) /\ take_axes idc sb ab = ss).
-      { assert (Hin : In ss (map (fun s => take_axes idc s aa) (sectors G R a))) by (apply in_map_iff; now exists s').
-        apply Hsame in Hin. apply in_map_iff in Hin. destruct Hin as (sb & E & Hsb). now exists sb. }
-      destruct Hex as (sb & Hsb & Esb).
-      destruct (Hagree s' sb Hs' Hsb (eq_sym Esb)) as (Hshape & Hgc & Hrng).
-      destruct (coords_ok_combine G (take_axes dflt (indices G R b) ab) ss u) as (HkcB & _ & _).
-      { rewrite length_take_axes. lia. }
-      { rewrite <- Esb. change (take_axes idc sb ab) with (group_subsector G sb ab). rewrite bsB, <- Hshape. exact Hu. }
-      change (List.combine ss u) with kc in HkcB.
-      destruct (merge_facts G (indices G R b) ab csr kc Hab_nd Hab_lt Hcr HkcB) as (HcsB & HtB & _).
-      fold (ndim G R b) in HcsB, HtB. set (csB := merge G (ndim G R b) ab csr kc) in *.
-      rewrite <- (pair_sem G R GL OL a la aa Hwa PAnd PAcov H2la H2aa csA sL s' HcsA HsL Hs').
-      + rewrite <- (pair_sem G R GL OL b ab rb Hwb PBnd PBcov H2ab H2rb csB sb sR HcsB Hsb HsR).
-        * rewrite <- !(take_map snd dc). unfold csA, csB. rewrite mergeA_la, mergeB_rb. fold csA csB.
-          rewrite HtA, HtB, Hks. fold fl fr.
-          assert (Hk : fco G R b ab sb u = fco G R a aa s' u).
-          { unfold fco. now rewrite <- Hgc, <- Hrng, <- Hshape. }
-          rewrite Hk. reflexivity.
-        * unfold group_subsector. rewrite <- (take_map fst dc), HtB, Hkf. exact Esb.
-        * rewrite <- (take_map fst dc). unfold csB. rewrite mergeB_rb. exact ER.
-      + rewrite <- (take_map fst dc). unfold csA. rewrite mergeA_la. exact EL.
-      + rewrite <- (take_map fst dc), HtA, Hkf. reflexivity.
-    - intros ss u Hss Hu Hno.
-      assert (Hz : sem G R a (merge G (ndim G R a) aa csl (List.combine ss u)) = r0 R).
-      { unfold sem.
-        destruct (lookup keq (map fst (merge G (ndim G R a) aa csl (List.combine ss u))) (blocks G R a)) as [t|] eqn:E;
-          [exfalso|reflexivity].
-        apply (OrderProofs.lookup_In keq (Hke G GL)) in E. apply (Hno _ (In_secs G R a _ t E)).
-        apply product_length in Hss. rewrite map_length in Hss.
-        apply in_all_idx_inb in Hu.
-        destruct (coords_ok_combine G legsA ss u Hss Hu) as (HkcA & Hkf & _).
-        unfold group_subsector. rewrite <- (take_map fst dc). unfold merge.
-        rewrite (take_scatterA_axes dc (ndim G R a) aa (List.combine ss u) csl Haa_nd Haa_lt).
-        - exact Hkf.
-        - etransitivity; [exact (coords_ok_length G _ _ HkcA)|apply length_take_axes]. }
-      rewrite Hz. apply (rmul_0_l R RL).
-  Qed.
-End FusedEqNS.
-
-(* ------------------------------------------------------------------ *)
-(* Part G: the theorem for arbitrary valid operands with matching contracted legs *)
-Section FusedEqFinal.
-  Context (G : Symmetry) (R : Ring) (GL : GroupLaws G) (OL : OrderLaws G) (RL : SumLaws R).
-  Notation idc := (ident G).
-  Notation dflt := (dflt_index G).
-
-  Theorem fused_eq_blockwise_NS (a b : aarray G R) (la aa ab rb : list nat) :
-    wf_array G R a = true -> wf_array G R b = true ->
-    axes_ok (ndim G R a) aa = true -> axes_ok (ndim G R b) ab = true ->
-    legs_match G R a b aa ab ->
-    la = rest_axes (ndim G R a) aa -> rb = rest_axes (ndim G R b) ab ->
-    2 <= length aa -> 2 <= length la -> 2 <= length rb ->
-    let f := tdot_fused2 G R a b la aa ab rb in
-    let w := tdot_blockwise G R a b la aa ab rb in
-    let a1 := al_a G R a b aa ab in
-    let b1 := al_b G R a b aa ab in
-    charge G R f = charge G R w /\
-    forall csl csr, coords_ok G (without_axes (indices G R a1) aa) csl = true ->
-                    coords_ok G (without_axes (indices G R b1) ab) csr = true ->
-                    sem G R f (csl ++ csr) = sem G R w (csl ++ csr).
-  Proof.
-    intros Hwa Hwb Haa Hab Hlm Hla Hrb H2aa H2la H2rb. cbn zeta.
-    split; [apply fused_charge|]. intros csl csr Hcl Hcr.
-    destruct (is_nil (blocks G R (al_a G R a b aa ab)) || is_nil (blocks G R (al_b G R a b aa ab))) eqn:Eemp.
-    - destruct (fused_eq_blockwise_empty G R GL a b la aa ab rb Hla Hrb Eemp) as [E _]. now rewrite E.
-    - rewrite (proj2 (strategies_factor_through_aligned G R GL a b la aa ab rb Hla Hrb)).
-      rewrite tdot_fused2_unfold, Eemp.
-      set (a1 := al_a G R a b aa ab) in *. set (b1 := al_b G R a b aa ab) in *.
-      assert (Hna : ndim G R a1 = ndim G R a) by apply ndim_al_a.
-      assert (Hnb : ndim G R b1 = ndim G R b) by apply ndim_al_b.
-      subst la rb. rewrite <- Hna, <- Hnb. rewrite <- Hna in H2la, Haa. rewrite <- Hnb in H2rb, Hab.
-      destruct (drop_misaligned_wf G GL R OL a b aa ab Hwa Hwb) as [Hwa1 Hwb1].
-      fold (al_a G R a b aa ab) in Hwa1. fold (al_b G R a b aa ab) in Hwb1. fold a1 in Hwa1. fold b1 in Hwb1.
-      pose proof Hlm as Hlm0. destruct Hlm as (Hlen & Haa_lt & Hab_lt & Hlegs).
-      destruct (aligned_fused_tables G R GL OL a b aa ab Hlm0 H2aa) as (_ & _ & Hdual & _ & _ & Hsr & Hgc).
-      fold a1 b1 in Hdual, Hsr, Hgc.
-      assert (Hsame : forall ss, In ss (map (fun s => take_axes idc s aa) (sectors G R a1)) <->
-                                 In ss (map (fun s => take_axes idc s ab) (sectors G R b1))).
-      { intros ss. exact (aligned_same_subsectors G R GL a b aa ab ss). }
-      apply (fused_sem_eq_NS G R GL OL RL a1 b1 aa ab Hwa1 Hwb1 Haa Hab Hlen H2aa H2la H2rb Hsame Hdual);
-        [|exact Hcl|exact Hcr].
-      intros sa sb Hsa Hsb Heq.
-      destruct (Hgc sa sb Hsa Heq) as [Hc _].
-      assert (Hsing : is_singlet aa = false) by (unfold is_singlet; apply Nat.eqb_neq; lia).
-      assert (Hsingb : is_singlet ab = false) by (unfold is_singlet; apply Nat.eqb_neq; lia).
-      split; [|split; [exact Hc|]].
-      + (* the sizes of the contracted legs agree on the common sub-sector *)
-        rewrite Forall_forall in Haa_lt, Hab_lt.
-        set (ss := take_axes idc sa aa).
-        assert (Hss : In ss (con_subs G R a1 aa)) by (unfold con_subs; apply in_map_iff; now exists sa).
-        assert (Hssb : In ss (con_subs G R b1 ab)) by (unfold con_subs; apply in_map_iff; exists sb; split; [now symmetry|exact Hsb]).
-        apply (nth_ext _ _ 0 0); [now rewrite !map_length|].
-        intros k Hk. rewrite map_length in Hk.
-        rewrite (nth_map_lt _ _ _ 0) by exact Hk. rewrite (nth_map_lt _ _ _ 0) by lia.
-        unfold sz.
-        assert (Ea : nth (nth k aa 0) sa idc = nth k ss idc) by (unfold ss, take_axes; now rewrite (nth_map_lt _ _ _ 0)).
-        assert (Eb : nth (nth k ab 0) sb idc = nth k ss idc).
-        { unfold ss. rewrite Heq. unfold take_axes. rewrite (nth_map_lt _ _ _ 0) by lia. reflexivity. }
-        rewrite Ea, Eb.
-        change (nth (nth k aa 0) (indices G R a1) dflt) with (leg G (indices G R a1) aa k).
-        change (nth (nth k ab 0) (indices G R b1) dflt) with (leg G (indices G R b1) ab k).
-        unfold a1, b1. rewrite leg_al_a by (apply Haa_lt; now apply nth_In).
-        rewrite leg_al_b by (apply Hab_lt; apply nth_In; lia).
-        rewrite !(size_of_prune1 G GL).
-        * unfold size_of. now rewrite (proj2 (Hlegs k Hk)).
-        * apply (sub_charge_present G R GL); [lia|exact Hssb].
-        * apply (sub_charge_present G R GL); [exact Hk|exact Hss].
-      + unfold slot_range. rewrite Hsing, Hsingb. rewrite Hc. unfold group_subsector. rewrite Heq. apply Hsr.
-  Qed.
-End FusedEqFinal.
 
 (* alignment preserves validity, in the form of Props/C06.v *)
 Lemma alignment_preserves_wf :
@@ -1052,50 +570,6 @@ Lemma alignment_preserves_wf :
   wf_array G R (al_a G R a b aa ab) = true /\ wf_array G R (al_b G R a b aa ab) = true.
 Proof. intros G R GL OL a b aa ab Ha Hb. exact (drop_misaligned_wf G GL R OL a b aa ab Ha Hb). Qed.
 
-(* ------------------------------------------------------------------ *)
-(* Examples: sparse U1 operands with two free legs on both sides (FusedProofs.ExC06.ya, yb):
-   the fused route stores two extra all-zero blocks, the hypotheses of the theorem hold,
-   and the two results agree on every coordinate *)
-Module ExC06b.
-  Import ExC06.
-  Definition la2 := [0; 1]. Definition aa2 := [2; 3]. Definition ab2 := [0; 1]. Definition rb2 := [2; 3].
-
-  Example hyps_hold :
-    wf_array U1 ZRing ya = true /\ wf_array U1 ZRing yb = true /\
-    axes_ok (ndim U1 ZRing ya) aa2 = true /\ axes_ok (ndim U1 ZRing yb) ab2 = true /\
-    legs_match U1 ZRing ya yb aa2 ab2 /\
-    la2 = rest_axes (ndim U1 ZRing ya) aa2 /\ rb2 = rest_axes (ndim U1 ZRing yb) ab2 /\
-    2 <= length aa2 /\ 2 <= length la2 /\ 2 <= length rb2.
-  Proof.
-    split; [vm_compute; reflexivity|]. split; [vm_compute; reflexivity|].
-    split; [reflexivity|]. split; [reflexivity|]. split.
-    { split; [reflexivity|]. split; [repeat constructor|]. split; [repeat constructor|].
-      intros [|[|k]] Hk; [split; reflexivity | split; reflexivity | cbn in Hk; lia]. }
-    split; [reflexivity|]. split; [reflexivity|]. cbn. lia.
-  Qed.
-
-  Example records_differ_values_agree :
-    length (blocks U1 ZRing (tdot_fused2 U1 ZRing ya yb la2 aa2 ab2 rb2)) = 4 /\
-    length (blocks U1 ZRing (tdot_blockwise U1 ZRing ya yb la2 aa2 ab2 rb2)) = 2 /\
-    aarray_eqb U1 ZRing (tdot_fused2 U1 ZRing ya yb la2 aa2 ab2 rb2) (tdot_blockwise U1 ZRing ya yb la2 aa2 ab2 rb2) = false /\
-    forallb (fun cs => Z.eqb (sem U1 ZRing (tdot_fused2 U1 ZRing ya yb la2 aa2 ab2 rb2) cs)
-                             (sem U1 ZRing (tdot_blockwise U1 ZRing ya yb la2 aa2 ab2 rb2) cs))
-            (all_coords U1 (without_axes (indices U1 ZRing (al_a U1 ZRing ya yb aa2 ab2)) aa2 ++
-                            without_axes (indices U1 ZRing (al_b U1 ZRing ya yb aa2 ab2)) ab2)) = true.
-  Proof. repeat split; vm_compute; reflexivity. Qed.
-
-  Example theorem_applies :
-    forall csl csr,
-      coords_ok U1 (without_axes (indices U1 ZRing (al_a U1 ZRing ya yb aa2 ab2)) aa2) csl = true ->
-      coords_ok U1 (without_axes (indices U1 ZRing (al_b U1 ZRing ya yb aa2 ab2)) ab2) csr = true ->
-      sem U1 ZRing (tdot_fused2 U1 ZRing ya yb la2 aa2 ab2 rb2) (csl ++ csr) =
-      sem U1 ZRing (tdot_blockwise U1 ZRing ya yb la2 aa2 ab2 rb2) (csl ++ csr).
-  Proof.
-    destruct hyps_hold as (H1 & H2 & H3 & H4 & H5 & H6 & H7 & H8 & H9 & H10).
-    exact (proj2 (fused_eq_blockwise_NS U1 ZRing U1_laws U1_order ZRing_sum_laws ya yb la2 aa2 ab2 rb2
-                    H1 H2 H3 H4 H5 H6 H7 H8 H9 H10)).
-  Qed.
-End ExC06b.
 
 (* the unfuse step and its coordinate semantics in one statement *)
 Lemma pruned_unfuse_and_sem :
@@ -1105,26 +579,27 @@ Lemma pruned_unfuse_and_sem :
   Forall (fun g => g <> []) groups -> NoDup (concat groups) ->
   Forall (fun ax => ax < length (indices G R x)) (concat groups) ->
   forall g, In g (slots (length (indices G R x)) groups) -> is_singlet g = false ->
-  forall (Y : aarray G R) (ax : nat) (dropped : list (C G)),
+  forall (Y : aarray G R) (ax : nat) (dropped : list (C G)) (IXr : list (index G)),
   nth ax (indices G R Y) (dflt_index G) =
     drop_charges G (fused_index G (indices G R x) (sectors G R x) g) dropped ->
+  (forall ch, ~ In ch dropped ->
+     size_of G (nth ax IXr (dflt_index G)) ch = size_of G (fused_index G (indices G R x) (sectors G R x) g) ch) ->
   NoDup (sectors G R Y) ->
-  (forall K T, In (K, T) (blocks G R Y) ->
-     length K = length (indices G R Y) /\ tshape T = block_shape G (indices G R Y) K) ->
-  ax < length (indices G R Y) ->
+  (forall K T, In (K, T) (blocks G R Y) -> length K = length IXr /\ tshape T = block_shape G IXr K) ->
+  ax < length IXr ->
   (forall K T, In (K, T) (blocks G R Y) -> ~ In (nth ax K (ident G)) dropped) ->
   forall s' (cL csub cR : list (C G * nat)),
   In s' (sectors G R x) -> length cL = ax -> map fst csub = group_subsector G s' g ->
-  (In (map fst cL ++ group_charge G (indices G R x) s' g :: map fst cR) (sectors G R Y) ->
-   coords_ok G (indices G R (PY' G R x g Y ax dropped)) (cL ++ csub ++ cR) = true) ->
+  coords_ok G (replace_with_seq IXr ax (subs_of G (indices G R x) g)) (cL ++ csub ++ cR) = true ->
   a_unfuse G R Y ax = Some (PY' G R x g Y ax dropped) /\
   sem G R (PY' G R x g Y ax dropped) (cL ++ csub ++ cR) =
   sem G R Y (cL ++ (group_charge G (indices G R x) s' g,
                     fst (slot_range G (indices G R x) (sectors G R x) s' g) +
                     offset (map (sz G R x s') g) (map snd csub)) :: cR).
 Proof.
-  intros G R GL OL x groups Hwf Hne Hnd Hrng g Hg Es Y ax dropped Hix HYnd Hsh Hax Hkept s' cL csub cR Hs' Hl Hss Hc.
+  intros G R GL OL x groups Hwf Hne Hnd Hrng g Hg Es Y ax dropped IXr Hix Hsz HYnd Hsh Hax Hkept s' cL csub cR Hs' Hl Hss Hc.
   split.
-  - apply (pruned_unfuse G R GL OL x groups Hwf Hne Hnd Hrng g Hg Es Y ax dropped Hix HYnd Hsh Hax Hkept).
-  - apply (pruned_unfuse_sem G R GL OL x groups Hwf Hne Hnd Hrng g Hg Es Y ax dropped Hix HYnd Hsh Hax Hkept s' cL csub cR Hs' Hl Hss Hc).
+  - apply (pruned_unfuse G R GL OL x groups Hwf Hne Hnd Hrng g Hg Es Y ax dropped IXr Hix Hsz HYnd Hsh Hax Hkept).
+  - apply (pruned_unfuse_sem G R GL OL x groups Hwf Hne Hnd Hrng g Hg Es Y ax dropped IXr Hsz HYnd Hsh Hax Hkept
+             s' cL csub cR Hs' Hl Hss (fun _ => Hc)).
 Qed.
